@@ -34,6 +34,8 @@ type GuardSpec struct {
 	SkipCallee func(callee *Func) bool
 	// EntryGuarded: functions whose entry state is already guarded (e.g. literals invoked under a guard).
 	EntryGuarded func(f *Func) bool
+	// Only restricts the analysis to one function (callees are then opaque unless summarised elsewhere).
+	Only *Func
 }
 
 // GuardResult holds the summaries of the must-precede analysis.
@@ -46,6 +48,9 @@ type GuardResult struct {
 func (m *Model) MustPrecede(spec GuardSpec) *GuardResult {
 	res := &GuardResult{Must: map[*Func]bool{}, Unguarded: map[*Func][]Witness{}}
 	all := m.AllFuncs()
+	if spec.Only != nil {
+		all = []*Func{spec.Only}
+	}
 	run := func(f *Func, collect bool) (must bool, wit []Witness) {
 		g := m.CFG(f)
 		seen := map[string]bool{}
